@@ -3986,7 +3986,10 @@ class IfThenElse(Construct):
         return sc._build(obj, stream, context, path)
 
     def _sizeof(self, context, path):
-        condfunc = evaluate(self.condfunc, context)
+        try:
+            condfunc = evaluate(self.condfunc, context)
+        except (KeyError, AttributeError):
+            raise SizeofError("cannot calculate size, key not found in context", path=path)
         sc = self.thensubcon if condfunc else self.elsesubcon
         return sc._sizeof(context, path)
 
